@@ -135,7 +135,7 @@ pub(crate) async fn do_edit(n: usize, a: usize, w: &Rc<RefCell<World>>, replica:
     let uuid = task_uuid(t);
     let now = EPOCH0 + at;
     interpose::set_now_ns(now * 1_000_000_000 + 123_456_789);
-    let before = simstorage::read_mem(&w.borrow().stores[n]);
+    let before = simstorage::read_store(&w.borrow().stores[n]);
     let mut ops = Operations::new();
     let mut task = match replica.create_task(uuid, &mut ops).await {
         Ok(t) => t,
@@ -299,7 +299,7 @@ pub(crate) async fn do_edit(n: usize, a: usize, w: &Rc<RefCell<World>>, replica:
     let nops = ops.len();
     commit_ops(n, a, w, replica, ops, f0).await;
     let faulted = fired_total() > f0;
-    let after = simstorage::read_mem(&w.borrow().stores[n]);
+    let after = simstorage::read_store(&w.borrow().stores[n]);
     let stored = after.tasks.get(&uuid).cloned();
     // reads through a fresh Task, with the dependency map recomputed
     let mut read_errs: Vec<String> = Vec::new();
